@@ -427,10 +427,19 @@ class NetworkService(ModelElement):
         """
         assert(isinstance(ns, NetworkService))
         self_iface = self.add_interface(name=self.name + '-' + ns.name, itype=InterfaceType.ServicePort, **kwargs)
-        other_iface = ns.add_interface(name=ns.name + '-' + self.name, itype=InterfaceType.ServicePort)
-        # link them together with L2Path
-        peer_link = Link(name=self_iface.name + '-link', topo=self.topo, etype=ElementType.NEW,
-                         interfaces=[self_iface, other_iface], ltype=LinkType.L2Path)
+        try:
+            other_iface = ns.add_interface(name=ns.name + '-' + self.name, itype=InterfaceType.ServicePort)
+            try:
+                # link them together with L2Path
+                peer_link = Link(name=self_iface.name + '-link', topo=self.topo, etype=ElementType.NEW,
+                                 interfaces=[self_iface, other_iface], ltype=LinkType.L2Path)
+            except Exception:
+                ns.topo.graph_model.remove_cp_and_links(node_id=other_iface.node_id)
+                raise
+        except Exception:
+            # peering is all or nothing: do not leave this service's port behind
+            self.topo.graph_model.remove_cp_and_links(node_id=self_iface.node_id)
+            raise
         # update interface lists
         self._interfaces.append(self_iface)
         ns._interfaces.append(other_iface)
